@@ -1680,7 +1680,8 @@ def _leaf_sweep_for(seed: int, prop: str, which: str) -> list:
             v[sec][key] = new
             v["variant_of"] = [f"{sec}.{key}"]
             ops = [{"op": "other", "cfg_key": "variant"}, {"op": "build", "mgr": "A", "order": list(gen.SETTERS), "decoys": [],
-                                                            "cfg_key": "base"}, {"op": "find", "mgr": "A"}, {"op": "pristine", "mgr": "A"}]
+                                                            "cfg_key": "base"}, {"op": "find", "mgr": "A"},
+                   {"op": "pristine" if prop == "C13" else "pristine_resim", "mgr": "A"}]
             plans.append({"engine": "E1", "property": prop, "cfg": cfg, "cfg2": cfg2, "variant": v, "variant2": v, "ops": ops,
                           "clock": {"start": 0.0, "step": 1.0}, "leaf": f"{which}:{sec}.{key}x{factor}"})
     return plans
